@@ -6,7 +6,7 @@ ID = "C07"
 LEAN_PROPS = "Tahoe.Props.C07"
 DRIVER = "C07"
 GENERATED = []
-SOURCES = ["src/allmydata/immutable/happiness_upload.py"]
+SOURCES = ["src/allmydata/immutable/happiness_upload.py", "src/allmydata/immutable/upload.py"]
 DESIGN_REF = "DESIGN.md §2 C07, §3 (C07 row)"
 TECHNIQUE = ("Lean 4 theorems over an executable transcription of share_placement and its helpers (three matching phases on "
              "the shared Edmonds-Karp model of C08, homeless-share distribution with its priority queue, round-robin); "
@@ -40,6 +40,7 @@ SIG_RO = "ro-peer-assigned-share-it-lacks"
 SIG_TOTAL = "share-unassigned-or-unknown-server"
 SIG_SPREAD_DROPPED = "spread-below-optimum-writable-peer-dropped"
 SIG_SPREAD_OTHER = "spread-below-optimum-other"
+SIG_UNHAPPY = "selection-unhappy-although-achievable"
 
 
 # ----------------------------------------------------------------------------- encodings
@@ -260,7 +261,7 @@ CORPUS = [
 ]
 
 
-def run(ctx):
+def run_direct(ctx):
     from allmydata.immutable import happiness_upload as up
     rng = ctx.rng
     thorough = ctx.tier == "thorough"
@@ -408,3 +409,283 @@ def run(ctx):
                 ctx.count("clause-fails:" + sig)
         ctx.case(("place-large", kind, repr(case)) if ex else None)
         ctx.count("layout-large:" + kind)
+
+
+# ----------------------------------------------------------------------------- the caller: PeerSelector histories
+
+OP_NAMES = {"a": "add_peer", "s": "add_peer_with_share", "r": "mark_readonly_peer", "b": "mark_bad_peer",
+            "g": "get_share_placements"}
+
+
+class RefState:
+    """what the selector has been told, kept by the harness from the meaning of the operations (reference for the
+    monitor; never read back from the object under test)"""
+
+    def __init__(self, total):
+        self.total = total
+        self.W, self.R, self.B = set(), set(), set()
+        self.ex = {}            # insertion ordered
+
+    def apply(self, op):
+        k = op[0]
+        if k == "a":
+            self.W.add(op[1])
+        elif k == "s":
+            self.ex.setdefault(op[1], set()).add(op[2])
+        elif k == "r":
+            self.R.add(op[1]); self.W.discard(op[1])
+        elif k == "b":
+            if op[1] in self.W:
+                self.W.discard(op[1]); self.B.add(op[1])
+            elif op[1] in self.R:
+                self.R.discard(op[1]); self.B.add(op[1])
+
+    def in_domain(self):
+        return (bool(self.W) and not (self.W & self.R) and all(k in self.W or k in self.R for k in self.ex)
+                and all(sh < self.total for v in self.ex.values() for sh in v))
+
+
+def enc_op(op):
+    return ":".join(str(x) for x in op)
+
+
+def enc_sel_state(peers, ro, bad, ex_items):
+    return "S:%s|%s|%s|%s" % (enc_ids(sorted(peers)), enc_ids(sorted(ro)), enc_ids(sorted(bad)),
+                              enc_setmap([(k, sorted(v)) for k, v in ex_items]))
+
+
+def gen_history(rng, ids, max_total):
+    """mostly the uploader's discipline (add every server, demote some, record shares, plan, demote a server that failed,
+    plan again, ...) plus a few out-of-discipline operations (correspondence only)"""
+    total = rng.randint(1, max_total)
+    servers = rng.sample(ids, rng.randint(1, len(ids)))
+    ref = RefState(total)
+    ops = []
+
+    def do(op):
+        ops.append(op); ref.apply(op)
+    first = servers[:rng.randint(1, len(servers))]
+    for p in first:
+        do(("a", p))
+    for p in first:
+        if rng.random() < 0.3 and len(ref.W) > 1:
+            do(("r", p))
+    dens = rng.choice([0.0, 0.15, 0.4, 0.7])
+    for p in first:
+        for sh in range(total):
+            if rng.random() < dens:
+                do(("s", p, sh))
+    wild = rng.random() < 0.15
+    for _ in range(rng.randint(1, 12)):
+        x = rng.random()
+        known = sorted(ref.W | ref.R)
+        if x < 0.35:
+            do(("g",))
+        elif x < 0.55 and len(ref.W) > (0 if wild else 1):
+            do(("r", rng.choice(sorted(ref.W))))          # a server failed allocate_buckets: demoted
+        elif x < 0.65:
+            fresh = [p for p in servers if p not in ref.W and p not in ref.R and p not in ref.B]
+            if fresh:
+                do(("a", rng.choice(fresh)))
+        elif x < 0.8 and known:
+            do(("s", rng.choice(known), rng.randrange(total)))
+        elif x < 0.88:
+            cand = [p for p in known if p not in ref.ex and (len(ref.W - {p}) > 0 or wild)]
+            if cand:
+                do(("b", rng.choice(cand)))
+        elif wild:
+            y = rng.random()
+            if y < 0.4:
+                do(("r", rng.choice(ids)))                  # possibly not writable: KeyError after the add
+            elif y < 0.7:
+                do(("b", rng.choice(ids)))                  # possibly unknown / holding shares
+            else:
+                do(("s", rng.choice(ids), rng.randrange(total + 1)))
+    do(("g",))
+    return total, ops
+
+
+def demotion_histories(max_servers, max_shares):
+    """the seeded scenario, exhaustively: build a layout, plan, demote one writable server, plan again"""
+    for W, R, S, ex in exhaustive_layouts(max_servers, max_shares):
+        if len(W) < 2:
+            continue
+        base = [("a", p) for p in sorted(W + R)] + [("r", p) for p in R] + [("s", p, sh) for p, shs in ex for sh in shs]
+        for f in W:
+            yield len(S), base + [("g",), ("r", f), ("g",)]
+
+
+def run_history(ctx, PeerSelector, up, total, ops, idmap=None, idseed=None):
+    """drive a real PeerSelector; returns the output string (exact ids only) after checking every plan"""
+    m = (lambda p: idmap[p]) if idmap else (lambda p: p)
+    ps = PeerSelector(1, total, 1, 1)
+    ref = RefState(total)
+    outs = []
+    since = []
+    for i, op in enumerate(ops):
+        k = op[0]
+        try:
+            if k == "a":
+                ps.add_peer(m(op[1])); outs.append("-")
+            elif k == "s":
+                ps.add_peer_with_share(m(op[1]), op[2]); outs.append("-")
+            elif k == "r":
+                ps.mark_readonly_peer(m(op[1])); outs.append("-")
+            elif k == "b":
+                ps.mark_bad_peer(m(op[1])); outs.append("-")
+            else:
+                plan = ps.get_share_placements()
+                inv = {v: kk for kk, v in idmap.items()} if idmap else None
+                plan_i = {sh: (inv[p] if inv else p) for sh, p in plan.items()}
+                outs.append(enc_placement(plan_i))
+                ctx.count("selector:plans")
+                if ref.in_domain():
+                    S = list(range(total))
+                    exd = {kk: set(v) for kk, v in ref.ex.items()}
+                    bad = clauses(ref.W, ref.R, S, exd, plan_i)
+                    if bad:
+                        fresh = up.share_placement(set(m(p) for p in ref.W), set(m(p) for p in ref.R), set(S),
+                                                   {m(kk): set(v) for kk, v in ref.ex.items()})
+                        fresh_i = {sh: (inv[p] if inv else p) for sh, p in fresh.items()}
+                        stale = not clauses(ref.W, ref.R, S, exd, fresh_i)
+                        case = {"selector_history": {"total": total, "ops": [list(o) for o in ops[:i + 1]],
+                                                     "ids": "bytes" if idmap else "int", "idseed": idseed},
+                                "state": layout_case(ref.W, ref.R, S, list(ref.ex.items())),
+                                "plan": sorted(plan_i.items())}
+                        for sig, text in bad:
+                            if stale:
+                                sig = "stale-plan-after:" + ("+".join(sorted(set(OP_NAMES[o] for o in since))) or "nothing")
+                                text = ("get_share_placements() returned a plan that does not fit the selector's current "
+                                        "state (a fresh share_placement of that state does): " + text)
+                            ctx.violation(text, case, sig)
+                            ctx.count("clause-fails:" + sig)
+                    else:
+                        since = []      # ops since the last plan that fitted the state
+                else:
+                    ctx.count("selector:plans-outside-domain")
+                    since = []
+        except KeyError:
+            outs.append("KeyError")
+        if k != "g":
+            since.append(k)
+        ref.apply(op)
+        ctx.count("selector-op:" + OP_NAMES[k])
+    if idmap:
+        return None
+    outs.append(enc_sel_state(ps.peers, ps.readonly_peers, ps.bad_peers, list(ps.existing_shares.items())))
+    return ";".join(outs)
+
+
+def run_selector(ctx, histories=None):
+    from allmydata.immutable.upload import PeerSelector
+    from allmydata.immutable import happiness_upload as up
+    rng = ctx.subrng("selector")
+    exact = []
+    if histories is None:
+        exact = [(1, [("a", 0), ("a", 1), ("g",), ("r", 0), ("g",)]),
+                 (3, [("a", 0), ("a", 1), ("a", 2), ("s", 2, 0), ("r", 2), ("g",), ("r", 0), ("g",), ("s", 1, 2), ("g",)])]
+        if ctx.tier == "thorough":
+            exact += list(demotion_histories(3, 3))
+            exact += list(demotion_histories(4, 2))
+        else:
+            exact += list(demotion_histories(3, 2))
+            exact += [h for h in demotion_histories(2, 3)]
+        for _ in range(ctx.budget(2500, 60000)):
+            exact.append(gen_history(rng, list(range(8)), 6))
+    else:
+        exact = [(t, o) for (t, o, kind, _sd) in histories if kind == "int"]
+    descr, impl, lines = [], [], []
+    for total, ops in exact:
+        impl.append(run_history(ctx, PeerSelector, up, total, ops))
+        descr.append({"selector_history": {"total": total, "ops": [list(o) for o in ops], "ids": "int"}})
+        lines.append("sel 11 %d %s" % (total, " ".join(enc_op(o) for o in ops)))
+        ctx.case(("sel", lines[-1]) if any(o[0] == "s" for o in ops) else None)
+    ctx.compare("PeerSelector history (every returned plan, exceptions, final state) vs the selector state machine over the "
+                "repaired share_placement model", descr, impl, ctx.model(lines))
+    if lines:
+        ctx.sample({"line": lines[-1][:160], "impl": impl[-1][:200]})
+    # property level on 20-byte ids and more servers
+    big = []
+    if histories is None:
+        for _ in range(ctx.budget(400, 8000)):
+            n = rng.randint(2, 12)
+            big.append(gen_history(rng, list(range(n)), rng.choice([4, 10, 20])) + (rng.getrandbits(32),))
+    else:
+        big = [(t, o, sd or 0) for (t, o, kind, sd) in histories if kind == "bytes"]
+    for total, ops, sd in big:
+        r2 = __import__("random").Random(sd)
+        ids = sorted(set(o[1] for o in ops if len(o) > 1))
+        idmap = {p: bytes(r2.getrandbits(8) for _ in range(20)) for p in ids}
+        run_history(ctx, PeerSelector, up, total, ops, idmap=idmap, idseed=sd)
+        ctx.case(("sel-bytes", total, tuple(ops)) if any(o[0] == "s" for o in ops) else None)
+
+
+def run_grid(ctx, seeds=None):
+    """the uploader's real server selection on the in-process grid with one server failing allocate_buckets():
+    5 healthy servers remain for 4 shares (happy=4), so selection must succeed"""
+    import grid
+    from allmydata.immutable.upload import Tahoe2ServerSelector, UploadStatus
+    from allmydata.interfaces import UploadUnhappinessError
+    from allmydata.util.happinessutil import servers_of_happiness, merge_servers
+    from allmydata.util import hashutil
+    if seeds is None:
+        base = ctx.subrng("grid").randrange(1 << 20)
+        seeds = [base + i for i in range(ctx.budget(3, 40))]
+    for seed in seeds:
+        case = {"grid_selection": {"seed": seed, "servers": 6, "k": 2, "happy": 4, "n": 4}}
+        with grid.Runtime(seed=seed, policy="random") as rt:
+            g = grid.Grid(grid.fresh_dir("c07"), rt, num_servers=6, num_clients=1, k=2, happy=4, n=4, max_segment_size=64)
+            try:
+                victim = []
+
+                def make_fault(i):
+                    def fault(methname, args, kwargs):
+                        # the first server asked to really allocate something breaks and stays broken for allocations
+                        if methname == "allocate_buckets" and args[3]:
+                            if not victim:
+                                victim.append(i)
+                            if victim[0] == i:
+                                return "error"
+                        return None
+                    return fault
+                for i in g.wrappers:
+                    g.wrappers[i].fault = make_fault(i)
+                c = g.clients[0]
+                si = hashutil.tagged_hash(b"c07-grid", b"%d" % seed)[:16]
+                sel = Tahoe2ServerSelector("c07g%d" % seed, upload_status=UploadStatus())
+                d = sel.get_shareholders(c.storage_broker, c._secret_holder, si, 100, 25, 4, 4, 2, 4, 500)
+                try:
+                    (trackers, already) = rt.wait(d)
+                except UploadUnhappinessError as e:
+                    ctx.violation("server selection declared the upload unhappy although 5 healthy servers remain for 4 "
+                                  "shares (happy=4) after server #%s failed allocate_buckets: %s" % (victim, str(e)[:200]),
+                                  case, SIG_UNHAPPY)
+                    ctx.count("grid-selection:unhappy")
+                else:
+                    happiness = servers_of_happiness(merge_servers(already, trackers))
+                    vid = g.serverid(victim[0]) if victim else None
+                    used = set(t.get_serverid() for t in trackers)
+                    if happiness < 4 or vid in used:
+                        ctx.violation("server selection returned happiness %d (< 4) or kept the failing server" % happiness,
+                                      case, SIG_UNHAPPY)
+                    ctx.count("grid-selection:ok")
+                ctx.case(("grid-selection", seed))
+            finally:
+                g.close()
+
+
+def run(ctx):
+    if ctx.replay:
+        c = ctx.replay.get("case") or {}
+        if "selector_history" in c:
+            h = c["selector_history"]
+            run_selector(ctx, [(h["total"], [tuple(o) for o in h["ops"]], h.get("ids", "int"), h.get("idseed"))])
+            return
+        if "grid_selection" in c:
+            run_grid(ctx, [c["grid_selection"]["seed"]])
+            return
+        run_direct(ctx)
+        return
+    run_direct(ctx)
+    run_selector(ctx)
+    run_grid(ctx)
